@@ -313,7 +313,7 @@ fn ref_find_seq(s: &[u8], from: usize, pat: &[u8]) -> Option<usize> {
     None
 }
 
-// @harness props=C14,C03 tiers=quick:N=22;thorough:N=18|N=20|N=22|N=24 unwind=N+2 cap=2400 mem=3
+// @harness props=C14,C03 tiers=quick:N=23;thorough:N=18|N=20|N=22|N=23|N=24 unwind=N+2 cap=2400 mem=3
 // @fn Request::try_from request::find RequestLine::min_len
 // @claim one-shot framing == reference splitter: reject if len>=max; request line = bytes up to the first CRLF (>= 14 bytes) handed to the line parser; first CRLFCRLF at or after it ends the header block, which is handed over exactly; body must be exactly Content-Length bytes, a GET must not declare one; without a declared length trailing bytes are ignored; no panic on any input (headers_end - CRLF_LEN, len - crlf_end and all slices)
 // @bounds every input of exactly N bytes (all symbolic); max_len None or Some(symbolic); request-line and header-block content parsers replaced by surrogates
@@ -415,6 +415,7 @@ fn c14_oneshot_framing() {
         Err(_) => panic!("[C14] unexpected error kind"),
     }
     kani::cover!(PN < 22 || (r.is_ok() && want_body.is_some()), "accepted with body");
+    kani::cover!(PN < 23 || (class == 1 && want_cl != 0 && hb.is_some() && !too_long && e1 >= 14), "declared length differs from the bytes present");
     kani::cover!(r.is_ok() && hb.is_none(), "accepted without headers");
     kani::cover!(class == 1 && !too_long && e1 >= 14, "rejected by framing after the request line");
     std::mem::forget(r);
